@@ -212,6 +212,49 @@ def run(res, tier, seed):
                 e = e or f"include fault '{name}': the rest of the file is not analysed ({len(runs)} items)"
         if e and first is None:
             first = {"what": e, "files": fl, "replay_cmd": "echo '%s' | %s" % (pipe_req("run", fl), RVH_DEBUG)}
+    # ---- the in-memory reader of the editor integration (riscv_analysis_lsp's LSPFileReader, reached through
+    #      the guarded hook): the same faults, and the split programs give what the harness reader gives
+    def lsp_req(fl):
+        return "lsp %d %s" % (len(fl), " ".join(hx(n) + " " + hx(t) for n, t in fl))
+    lfaults = [f for f in faults if f[0] != "unreadable"] + [
+        ("cycle3", [("base.s", body.replace("{INC}", '.include "a.s"')), ("a.s", '    nop\n.include "b.s"\n'),
+                    ("b.s", '    nop\n.include "a.s"\n')], "Cyclic dependency", 1),
+        ("self-below", [("base.s", body.replace("{INC}", '.include "a.s"')), ("a.s", '    nop\n.include "a.s"\n')],
+         "Cyclic dependency", 1)]
+    lout = run_lines_isolated(RVH_DEBUG, [lsp_req(fl) for _, fl, _, _ in lfaults], chunk=1, timeout=10)
+    stats["lsp_reader_cases"] = 0
+    for (name, fl, title, line), blk in zip(lfaults, lout):
+        stats["lsp_reader_cases"] += 1
+        runs = [l for l in blk if l.startswith("LSP ")]
+        e = None
+        if blk and blk[0].startswith(("HANG", "CRASH", "PANIC")):
+            e = f"{blk[0][:60]} with the editor integration's reader on include fault '{name}'"
+        else:
+            want = title if name != "missing" else ""
+            errs = [l for l in runs if field(l, "sev") == "Error" and unhx(field(l, "title")).startswith(want)
+                    and ".s" in (dict(fl).get(unhx(field(l, "file")), "").split("\n") + [""] * 99)[int(field(l, "at").split(":")[0])]]
+            if len(errs) != 1:
+                e = (f"editor integration's reader, include fault '{name}': expected exactly one "
+                     f"{title if want else 'error'!r} on the directive, got {[unhx(field(l, 'title')) for l in runs]}")
+            elif not any(unhx(field(l, "title")) == "Unused value" for l in runs):
+                e = f"editor integration's reader, include fault '{name}': the rest of the file is not analysed"
+        if e and first is None:
+            first = {"what": e, "files": fl, "replay_cmd": "echo '%s' | %s" % (lsp_req(fl), RVH_DEBUG)}
+    trees = [inputs[2 * j + 1] for j in range(min(len(cases), 12 if tier == "quick" else 150))
+             if all("/" not in n for n, _ in inputs[2 * j + 1])]
+    tl = run_lines_isolated(RVH_DEBUG, [r for fl in trees for r in (lsp_req(fl), pipe_req("run", fl))], chunk=40)
+    for j, fl in enumerate(trees):
+        a, b = tl[2 * j], tl[2 * j + 1]
+        if any(l.startswith(("HANG", "CRASH", "PANIC")) for l in a + b):
+            continue
+        stats["lsp_reader_cases"] += 1
+        ka = sorted((field(l, "sev"), field(l, "title"), field(l, "at")) for l in a if l.startswith("LSP "))
+        kb = sorted((field(l, "sev"), field(l, "title"), field(l, "at").split("@")[0]) for l in b if l.startswith("RUN "))
+        if ka != kb and first is None and not any("756e6b6e6f776e20737461636b" in (x[1] or "").lower() for x in ka + kb):
+            first = {"what": "the include tree gives different diagnostics with the editor integration's in-memory reader: "
+                             f"only there {[x for x in ka if x not in kb][:3]}, only with the harness reader "
+                             f"{[x for x in kb if x not in ka][:3]}", "files": fl,
+                     "replay_cmd": "echo '%s' | %s" % (lsp_req(fl), RVH_DEBUG)}
     # ---- the CLI's file-system reader on real directories
     root = os.path.join(WORK, "c15")
     shutil.rmtree(root, ignore_errors=True)
